@@ -1,0 +1,6 @@
+//go:build !verif
+
+package sampling
+
+// verifNewPRNG is the verification seam of NewPRNG. Without the `verif` build tag it is inert.
+func verifNewPRNG() (*KeyedPRNG, bool) { return nil, false }
